@@ -338,7 +338,9 @@ class History:
             ev['inputs_unchanged'] = bool(frames_equal(frame_in, frame_before))
         if isinstance(exc, AssertionError):
             msg = str(exc)
-            named = [f for f in feats if f"'{f}'" in msg or f"'{raw_column(o, f)}'" in msg]
+            # (a quoted unseen value may spell like another feature's name: "values: ['c0'] of feature 'o2'")
+            named = [f for f in feats if f"feature '{f}'" in msg or f"feature '{raw_column(o, f)}'" in msg] or \
+                    [f for f in feats if f"'{f}'" in msg or f"'{raw_column(o, f)}'" in msg]
             ev['named_raw'] = named
         self.events.append(ev)
         return len(self.events)
